@@ -75,6 +75,58 @@ def run_task(t):
             out = out[:, 0]
         return {'ids': [int(i) for i in fd.elements.ids], 'values': arr(out),
                 'types': [str(x) for x in fd.elements.types]}
+    if kind == 'motion':
+        fd = build(t['mesh'])
+        if t['pop_node'] and 'NODE' in fd.nodal_data:
+            fd.nodal_data.pop('NODE')
+        key = {'areas': 'area', 'volumes': 'volume', 'metrics': 'metric', 'normals': 'normal'}[t['entry']]
+
+        def query():
+            e = t['entry']
+            try:
+                if e == 'areas':
+                    out = fd.calculate_element_areas(mode=t['mode'], raise_negative_area=False,
+                                                     return_abs_area=True)
+                elif e == 'volumes':
+                    out = fd.calculate_element_volumes(mode=t['mode'], raise_negative_volume=False,
+                                                       return_abs_volume=False)
+                elif e == 'metrics':
+                    out = fd.calculate_element_metrics(raise_negative_metric=False, return_abs_metric=False)
+                else:
+                    out = fd.calculate_element_normals(mode=t['mode'])
+            except (NotImplementedError, ValueError, KeyError) as ex:
+                return {'error': type(ex).__name__}
+            out = np.asarray(out, dtype=np.float64)
+            if out.ndim == 2 and out.shape[1] == 1:
+                out = out[:, 0]
+            return {'ids': [int(i) for i in fd.elements.ids], 'values': arr(out)}
+        res = {}
+        if t['order'] == 'qmq':
+            res['first'] = query()
+        res['derived_keys_before_motion'] = [str(k) for k in fd.elemental_data.keys()]
+        try:
+            for mv in t['motions']:
+                if mv['kind'] == 'translation':
+                    fd.translation(*mv['v'])
+                else:
+                    fd.rotation(*mv['axis'], mv['theta'])
+        except NotImplementedError:
+            res['refused'] = True
+            return res
+        res['coords_after'] = arr(fd.nodes.data)
+        res['node_ids_after'] = [int(i) for i in fd.nodes.ids]
+        if key in fd.elemental_data:
+            st = np.asarray(fd.elemental_data.get_attribute_data(key), dtype=np.float64)
+            if st.ndim == 2 and st.shape[1] == 1:
+                st = st[:, 0]
+            res['stored_right_after_motion'] = arr(st)
+        res['second'] = query()
+        if key in fd.elemental_data:
+            st = np.asarray(fd.elemental_data.get_attribute_data(key), dtype=np.float64)
+            if st.ndim == 2 and st.shape[1] == 1:
+                st = st[:, 0]
+            res['stored_after_second'] = arr(st)
+        return res
     if kind == 'brick':
         from femio.util import brick_generator
         kw = {}
